@@ -378,7 +378,13 @@ func runPty(c *run.Ctx, cs *Case) bool {
 		}
 	}
 	// C: live in-place rendering on the pty
-	live := runCLI(c.RareBin, p.Args, p.Chunks, pause, p.Rows, p.Cols)
+	liveArgs := p.Args
+	if (p.Cols+len(p.Chunks))%3 == 0 {
+		// the switch spelled out with the value it has anyway: trimming stays on
+		liveArgs = append([]string{"--notrim=false"}, p.Args...)
+		c.Count("pty_runs_with_an_explicit_false_switch", 1)
+	}
+	live := runCLI(c.RareBin, liveArgs, p.Chunks, pause, p.Rows, p.Cols)
 	if incon("live run", live) {
 		return false
 	}
